@@ -20,9 +20,10 @@ V03(e) ==
   ELSE IF ~o.paste_ok /\ o.roi_src # SampledSrcRoi(c, PadOf(c)) THEN "drift:sampled_source_region_differs_from_model"
   ELSE "ok"
 V10(e) ==
-  LET c == e.c o == e.o v == PasteSoundOK(c, o) IN
+  LET c == e.c o == e.o v == PasteSoundOK(c, o) w == PasteRegionsOK(c, o) IN
   IF e.outcome # "ok" THEN "reject:raised_" \o e.outcome
   ELSE IF v # "ok" THEN "reject:" \o v
+  ELSE IF w # "ok" THEN "reject:" \o w
   ELSE IF ~o.paste_ok \/ o.shrink # 1 THEN (IF o.paste_ok THEN "ok" ELSE "skip")
   ELSE IF HasTie(c) THEN "skip"
   ELSE IF PasteImage(c, o, e.src, e.nodata) # e.gdal THEN "reject:paste_differs_from_nearest_neighbour_warp"
